@@ -40,7 +40,7 @@ Definition p_op : parser op :=
   | 4 => if okp a then pret (OFail a) else pfail
   | 5 => if (b <? 4) && (c <? 60000) && (a <? 4096)
          then pret (OEnv a (match b with 0 => EFrame c | 1 => EEof | 2 => EWerr | _ => EFlush end)) else pfail
-  | 6 => pret (OPoll (dec_order 8 b))
+  | 6 => pret (OPoll (map (fun k => (k / 2, N.odd k)) (dec_order 8 b)))
   | 7 => if okp a then pret (OUOpen a) else pfail
   | 8 => if okp a then pret (OUClose a) else pfail
   | 9 => if okp a then pret (OUVal a (negb (b =? 0))) else pfail
